@@ -197,11 +197,11 @@ End Dict.
 (* ---------------------------------------------------------------------------------------------- *)
 (* all entries = unphased complement                                                               *)
 Lemma hrows_split : forall R rows,
-  Z.of_nat (length (hrows R rows)) = count phase_none (hrows R rows) + Z.of_nat (length (entries R rows)).
+  Z.of_nat (length (hrows R rows)) = count (phase_none R) (hrows R rows) + Z.of_nat (length (entries R rows)).
 Proof.
   intros R rows. unfold entries. induction (hrows R rows) as [|row hs IH]. reflexivity.
   rewrite count_cons. cbn [flat_map length]. rewrite app_length. unfold phase_none at 1, entry_of at 1.
-  destruct (t_phase row); cbn [length]; lia.
+  destruct (eff_phase R row); cbn [length]; lia.
 Qed.
 
 (* ---------------------------------------------------------------------------------------------- *)
@@ -286,7 +286,7 @@ End DictCounts.
 (* one chromosome                                                                                  *)
 Definition chrom_stats (R : rules) (cid : Z) (rows : list trow) (pieces : list pblock) : pstats :=
   mkPS (map snd (dict_build (entries R rows) [])) (map (fun p => (cid, p)) pieces)
-       (count phase_none (hrows R rows)) (Z.of_nat (length rows)) (Z.of_nat (length (hrows R rows)))
+       (count (phase_none R) (hrows R rows)) (Z.of_nat (length rows)) (Z.of_nat (length (hrows R rows)))
        (count t_snv (hrows R rows)).
 
 Lemma lens_of_pieces : forall cid pieces, Forall (fun p => (2 <= pb_len p)%nat) pieces ->
@@ -353,7 +353,7 @@ Proof.
   unfold write_to_block_list. rewrite Hmix.
   unfold ps_add_blocks. cbn [ps_blocks ps_split ps_unphased ps_variants ps_het ps_hetsnv app]. rewrite Eno.
   rewrite !Z.add_0_l.
-  change (mkPS (map snd d) (map (fun p => (cid, p)) pieces) (count phase_none (hrows R rows))
+  change (mkPS (map snd d) (map (fun p => (cid, p)) pieces) (count (phase_none R) (hrows R rows))
                (Z.of_nat (length rows)) (Z.of_nat (length (hrows R rows))) (count t_snv (hrows R rows)))
     with (chrom_stats R cid rows pieces).
   rewrite detailed_rowfun.
